@@ -367,6 +367,43 @@ func cmdCheck(args []string) int {
 		fmt.Println("ERROR load:", err)
 		return 2
 	}
+	// vacuity guard: an assumed (trusted) contract that names no function of a loaded package of this
+	// module can never apply - a misspelt name would silently leave the real callee without contract
+	for _, k := range sortedContractKeys(cs) {
+		c := cs.ByKey[k]
+		if !c.Trusted || !strings.HasPrefix(c.Pkg, modulePath) || strings.Contains(c.Fn, "$") {
+			continue
+		}
+		sp := l.pkgs[c.Pkg]
+		if sp == nil {
+			continue
+		}
+		if dot := strings.Index(c.Fn, "."); dot > 0 {
+			if tt := sp.Type(c.Fn[:dot]); tt != nil {
+				if it, ok := tt.Type().Underlying().(*types.Interface); ok {
+					found := false
+					for i := 0; i < it.NumMethods(); i++ {
+						if it.Method(i).Name() == c.Fn[dot+1:] {
+							found = true
+						}
+					}
+					if found {
+						continue
+					}
+				}
+			} else {
+				continue // behaviour spec or pseudo type: not a declared type of the package
+			}
+		} else if sp.Func(c.Fn) == nil && sp.Members[c.Fn] == nil {
+			if _, isSpec := cs.specTargets()[c.Key()]; isSpec {
+				continue
+			}
+		}
+		if findFunc(l, c) == nil {
+			fmt.Printf("ERROR contracts: trusted contract %s names no function in the current tree (%s:%d)\n", c.Key(), c.File, c.Line)
+			return 2
+		}
+	}
 	tmpdir, _ := os.MkdirTemp("", "govc-*")
 	defer os.RemoveAll(tmpdir)
 	var frs []*FuncResult
@@ -430,4 +467,14 @@ func main() {
 		fmt.Println("unknown command", os.Args[1])
 		os.Exit(2)
 	}
+}
+
+// specTargets: contract keys that are the targets of behaviour specs (`field T.f : key`); they describe
+// function values, not declared functions.
+func (cs *ContractSet) specTargets() map[string]bool {
+	m := map[string]bool{}
+	for _, k := range cs.FieldSpecs {
+		m[k] = true
+	}
+	return m
 }
